@@ -242,6 +242,31 @@ mut("c13-responsewriter-created-before-swap", ["C13"], "conn.go",
 mut("c13-starttls-inline-only-when-first-request", ["C13"], "conn.go",
     "\t\tcase r.extendedName == ExtendedOperationStartTLS:", "\t\tcase r.extendedName == ExtendedOperationStartTLS && requestID == 1:")
 
+# ---- C17 -------------------------------------------------------------------
+mut("c17-flag-set-before-listen", ["C17"], "server.go",
+    "\ts.mu.Lock()\n\ts.listener, err = net.Listen(\"tcp\", addr)\n\tif err != nil {\n\t\ts.mu.Unlock()",
+    "\ts.mu.Lock()\n\ts.listenerReady = true\n\ts.mu.Unlock()\n\ts.mu.Lock()\n\ts.listener, err = net.Listen(\"tcp\", addr)\n\tif err != nil {\n\t\ts.listenerReady = false\n\t\ts.mu.Unlock()")
+mut("c17-flag-set-in-newserver", ["C17"], "server.go",
+    "\t\tonCloseHandler:       opts.withOnClose,\n", "\t\tonCloseHandler:       opts.withOnClose,\n\t\tlistenerReady:        true,\n")
+mut("c17-flag-set-regardless-of-error", ["C17"], "server.go",
+    "\tif err != nil {\n\t\ts.mu.Unlock()\n\t\treturn fmt.Errorf(\"%s: unable to listen", "\tif err != nil {\n\t\ts.listenerReady = true\n\t\ts.mu.Unlock()\n\t\treturn fmt.Errorf(\"%s: unable to listen")
+mut("c17-flag-set-after-validation-failure", ["C17"], "server.go",
+    "\taddr, err = validateAddrPort(addr)\n\tif err != nil {\n", "\taddr, err = validateAddrPort(addr)\n\tif err != nil {\n\t\ts.mu.Lock()\n\t\ts.listenerReady = true\n\t\ts.mu.Unlock()\n")
+mut("c17-bare-ipv6-not-bracketed", ["C17"], "server.go",
+    "\t\tif rawHost == \"::1\" {", "\t\tif rawHost == \"::1\" && false {")
+
+# ---- C18 -------------------------------------------------------------------
+mut("c18-clientauth-verify-if-given", ["C18"], "testdirectory/testing.go",
+    "serverTLSConf.ClientAuth = tls.RequireAndVerifyClientCert", "serverTLSConf.ClientAuth = tls.VerifyClientCertIfGiven")
+mut("c18-clientauth-request-only", ["C18"], "testdirectory/testing.go",
+    "serverTLSConf.ClientAuth = tls.RequireAndVerifyClientCert", "serverTLSConf.ClientAuth = tls.RequireAnyClientCert")
+mut("c18-clientcas-not-set", ["C18"], "testdirectory/testing.go",
+    "\t\tserverTLSConf.ClientCAs = certpool\n", "")
+mut("c18-withtlsconfig-ignored", ["C18"], "server.go",
+    "\tif opts.withTLSConfig != nil {\n\t\ts.logger.Debug(\"setting up TLS listener\", \"op\", op)", "\tif opts.withTLSConfig != nil && opts.withTLSConfig.ClientAuth != tls.NoClientCert {\n\t\ts.logger.Debug(\"setting up TLS listener\", \"op\", op)")
+mut("c18-directory-mtls-option-dropped", ["C18"], "testdirectory/directory.go",
+    "\tserverTLSConfig, clientTLSConfig := GetTLSConfig(t, opt...)\n", "\tserverTLSConfig, clientTLSConfig := GetTLSConfig(t, opt...)\n\tserverTLSConfig.ClientAuth = tls.RequestClientCert\n")
+
 # ---- C14 -------------------------------------------------------------------
 mut("c14-managedsait-criticality-dropped-on-decode", ["C14", "C01"], "control.go",
     "return NewControlManageDsaIT(WithCriticality(Criticality))", "return NewControlManageDsaIT()")
